@@ -15,7 +15,7 @@ cp $D/out/demo$I.rs $WT/datasketches/tests/zz_demo_$I.rs
 rm $WT/datasketches/tests/zz_demo_$I.rs
 BASE=/tmp/confirm-base-$(git -C /repo rev-parse --short HEAD).txt
 if [ ! -f $BASE ]; then run_suite > $BASE; fi
-(cd $WT && git apply $D/out/change$I.diff) || { echo "APPLY-FAILED" > $OUT; git -C /repo worktree remove --force $WT; exit 1; }
+(cd $WT && (git apply $D/out/change$I.diff || git apply --3way $D/out/change$I.diff)) || { echo "APPLY-FAILED" > $OUT; git -C /repo worktree remove --force $WT; exit 1; }
 (cd $WT && cargo build --offline -p datasketches 2>&1 | grep -E "^(warning|error)" | sort | uniq -c) > $OUT.build
 run_suite > $OUT.suite
 cp $D/out/demo$I.rs $WT/datasketches/tests/zz_demo_$I.rs
